@@ -609,11 +609,13 @@ def _close_tol(rec, v, ref, tol, clause):
     d = np.abs(v - ref)
     bad = ~(d <= tol)
     if bad.any():
-        i = int(np.argwhere(bad)[0][0])
-        rec.fail(clause, "node %d lib=%.9g ref=%.9g |diff|=%.3g tol=%.3g; "
-                 "lib=%s ref=%s" % (i, v[i], ref[i], d[i],
-                                    np.broadcast_to(tol, v.shape)[i],
-                                    np.round(v[:8], 7), np.round(ref[:8], 7)))
+        i = int(np.flatnonzero(bad.ravel())[0])
+        tl = np.broadcast_to(tol, v.shape).ravel()
+        rec.fail(clause, "entry %d lib=%.9g ref=%.9g |diff|=%.3g tol=%.3g; "
+                 "lib=%s ref=%s" % (i, v.ravel()[i], ref.ravel()[i],
+                                    d.ravel()[i], tl[i],
+                                    np.round(v.ravel()[:8], 7),
+                                    np.round(ref.ravel()[:8], 7)))
 
 
 def oracle_spatialnet(case, rec):
